@@ -81,6 +81,23 @@ def scenarios(tier: str) -> List[Dict[str, Any]]:
                             for how in (("fin", "rst") if dead else ("-",)):
                                 out.append(dict(tc=tc, grace=grace, flip=flip, label=label, data=data.hex(), desc=desc, nw=list(nw),
                                                 dead=list(dead), how=how, departure=False))
+        # two frames of the publisher in one round, and a second delivery after the first one's failures (state left behind
+        # by a delivery: deferred notices, removed modules, the recursion guard): lock step only
+        b1 = fr(tc, T, b"first!!!", src_mod_id=IDS["P"])
+        b2 = fr(tc, T, b"second!!", src_mod_id=IDS["P"], dest_mod_id=IDS["S1"])
+        b3 = fr(tc, 44, b"\0" * P.LOG_SIZE, src_mod_id=IDS["P"])
+        multi = dict(mt=T, dest=0, notice=True, multi=True)
+        small_nw = [c for k in range(3) for c in itertools.combinations(nw_universe, k)]
+        for nw in (small_nw if tier == "thorough" else [c for c in small_nw if len(c) <= 1 or c in (("S1", "S2"), ("S1", "F"), ("S2", "L"))]):
+            for dead in ([], ["S1"], ["S2"], ["L"], ["S1", "S2"]):
+                if set(dead) & set(nw):
+                    continue
+                for how in (("fin", "rst") if dead else ("-",)):
+                    for lab, data in (("two-frames", b1 + b2), ("log-then-data", b3 + b1), ("data-then-log", b1 + b3)):
+                        out.append(dict(tc=tc, grace=grace, flip=flip, label=lab, data=data.hex(), desc=multi, nw=list(nw), dead=list(dead), how=how, departure=False))
+                    for nw2 in ((), ("S2",), ("F",), ("S1", "A")) if tier == "thorough" else ((), ("S2",)):
+                        out.append(dict(tc=tc, grace=grace, flip=flip, label="then-second-delivery", data=b1.hex(), desc=multi, nw=list(nw), dead=list(dead), how=how,
+                                        departure=False, follow=[[b2.hex(), list(nw2)], [b1.hex(), []]]))
         # a CLIENT_CLOSED caused by a departure, undeliverable to some of its subscribers
         for k in range(3):
             for nw in itertools.combinations(["S1", "S2", "F", "A", "L"], k):
@@ -120,8 +137,14 @@ def execute(args) -> Dict[str, Any]:
         if sc["departure"]:
             env.apply(["fin", "E"])
             env.settle()
+        for data2, nw2 in sc.get("follow", []):
+            if env.dead:
+                break
+            env.apply(ev_send("P", bytes.fromhex(data2)))
+            env.round(0, nw2)
+            env.settle()
         probs += [dict(p) for p in env.problems]
-        if not env.dead:
+        if not env.dead and not sc["desc"].get("multi"):
             probs += independent_oracle(sc, env, mark, waits, first_round, order)
     finally:
         env.close()
